@@ -84,6 +84,9 @@ func ParseWriteSingleCoilRequestTCP(data []byte) (*WriteSingleCoilRequestTCP, er
 	if err != nil {
 		return nil, err
 	}
+	if tooShort := checkTCPRequestLength(header, data, FunctionWriteSingleCoil, 12); tooShort != nil {
+		return nil, tooShort
+	}
 	unitID := data[6]
 	if data[7] != FunctionWriteSingleCoil {
 		tmpErr := NewErrorParseTCP(ErrIllegalFunction, "received function code in packet is not 0x05")
